@@ -922,7 +922,7 @@ where
         verbose: 0,
         // shrinking is time-boxed (it affects only how small the replay is, never the verdict), so that
         // an expensive property cannot run into the watchdog while minimising a real failure
-        max_shrink_time: if env.tier == Tier::Quick { 120_000 } else { 600_000 },
+        max_shrink_time: std::env::var("VH_SHRINK_MS").ok().and_then(|v| v.parse().ok()).unwrap_or(if env.tier == Tier::Quick { 120_000 } else { 600_000 }),
         ..Config::default()
     };
     let mut runner = TestRunner::new(config);
